@@ -602,6 +602,8 @@ def verify_unit(target, enum_assign, opts=None):
                     else:
                         st2.assume(ph.truthy(ph.ev(node.value)))
             for name, fn, props in ct.ensures:
+                if name in ct.native_clauses:
+                    continue
                 e = p.inline_spec(fn, [], {}, extra_env=pick_env(fn, env2))
                 goal = p2truthy(p, e)
                 for gap in ct.gaps:
